@@ -257,6 +257,13 @@ func (t *tr) expr(e ast.Expr) texpr {
 			w := t.widthOf(e, max(l.w, r.w))
 			op := map[token.Token]string{token.AND: "And", token.OR: "Or", token.XOR: "Xor"}[x.Op]
 			return texpr{fmt.Sprintf("(%s %s %s)", op, l.s, r.s), w, false}
+		case token.AND_NOT:
+			l, r := t.expr(x.X), t.expr(x.Y)
+			if l.isBool || r.isBool {
+				t.fail(e, "bitwise operator on booleans")
+			}
+			w := t.widthOf(e, max(l.w, r.w))
+			return texpr{fmt.Sprintf("(And %s (Xor %s (Const (N.ones %d))))", l.s, r.s, w), w, false}
 		case token.EQL, token.NEQ:
 			l, r := t.expr(x.X), t.expr(x.Y)
 			if l.isBool || r.isBool {
@@ -310,8 +317,43 @@ func (t *tr) stmts(ss []ast.Stmt) texpr {
 			}
 		}
 		t.fail(s, "assignment form outside the subset")
+	case *ast.DeclStmt:
+		// local `const c = e` (uses are folded by constOf) and `var x [T] = e` (a local like x := e,
+		// with the conversion to T made explicit)
+		gd, ok := s.Decl.(*ast.GenDecl)
+		if !ok {
+			t.fail(s, "declaration form outside the subset")
+		}
+		switch gd.Tok {
+		case token.CONST, token.TYPE:
+			return t.stmts(ss[1:])
+		case token.VAR:
+			for _, sp := range gd.Specs {
+				vs := sp.(*ast.ValueSpec)
+				if len(vs.Names) != len(vs.Values) {
+					t.fail(s, "var declaration without initialiser is outside the subset")
+				}
+				for i, id := range vs.Names {
+					v := t.expr(vs.Values[i])
+					if obj := t.p.info.Defs[id]; obj != nil && !v.isBool {
+						wt, ok := uintWidth(obj.Type())
+						if !ok {
+							t.fail(s, "local of non-unsigned type %s", obj.Type())
+						}
+						if wt < v.w {
+							v = texpr{fmt.Sprintf("(Trunc %s %d)", v.s, wt), wt, false}
+						} else {
+							v.w = wt
+						}
+					}
+					t.locals[id.Name] = v
+				}
+			}
+			return t.stmts(ss[1:])
+		}
+		t.fail(s, "declaration form outside the subset")
 	case *ast.IfStmt:
-		if s.Init != nil || s.Else != nil || len(s.Body.List) != 1 {
+		if s.Init != nil || len(s.Body.List) != 1 {
 			t.fail(s, "if form outside the subset")
 		}
 		ret, ok := s.Body.List[0].(*ast.ReturnStmt)
@@ -323,9 +365,28 @@ func (t *tr) stmts(ss []ast.Stmt) texpr {
 			t.fail(s, "non-boolean condition")
 		}
 		a := t.expr(ret.Results[0])
-		b := t.stmts(ss[1:])
-		if a.isBool || b.isBool {
-			t.fail(s, "conditional boolean results are outside the subset")
+		var b texpr
+		switch el := s.Else.(type) {
+		case nil:
+			b = t.stmts(ss[1:])
+		case *ast.BlockStmt:
+			// if c { return a } else { ...; return b }: the statements after the if are dead
+			saved := map[string]texpr{}
+			for k, v := range t.locals {
+				saved[k] = v
+			}
+			b = t.stmts(el.List)
+			t.locals = saved
+		case *ast.IfStmt:
+			b = t.stmts([]ast.Stmt{el})
+		default:
+			t.fail(s, "else form outside the subset")
+		}
+		if a.isBool != b.isBool {
+			t.fail(s, "branches of different kinds")
+		}
+		if a.isBool {
+			return texpr{fmt.Sprintf("(BOr (BAnd %s %s) (BAnd (BNot %s) %s))", c.s, a.s, c.s, b.s), 0, true}
 		}
 		return texpr{fmt.Sprintf("(Ite %s %s %s)", c.s, a.s, b.s), max(a.w, b.w), false}
 	}
